@@ -88,6 +88,10 @@ class TokenTree:
         :param token: the token to attempt to add.
         :returns: the newly added token or None if the operation was not successful.
         """
+        hash_length = len(self.genesis_hash)
+        if len(token.previous_token_hash) != hash_length or len(token.content_hash) != hash_length:
+            # Not a pair of SHA3-256 pointers: the signed bytes of a Token can be cut into other pointers.
+            return None
         if token.verify(self.public_key):
             if token.previous_token_hash != self.genesis_hash and token.previous_token_hash not in self.elements:
                 self.unchained[token] = None
